@@ -116,6 +116,20 @@ DimContract(
           "multiplies column 1 by mutation_rate (1/(T*L)) to get the 1/T-dimensioned likelihood column",
 )
 
+TS_COORDS = ("obj", {"num_nodes": "int", "samples()": "idx", "mutations_node": "idx", "mutations_site": "idx",
+                     "sites_position": "L", "edges_parent": "idx", "edges_child": "idx", "edges_left": "L",
+                     "edges_right": "L", "indexes_edge_insertion_order": "idx", "indexes_edge_removal_order": "idx",
+                     "sequence_length": "L"})
+
+DimContract(
+    "rescaling.count_mutations",
+    params={"ts": TS_COORDS, "node_is_sample": "bool", "size_biased": "bool"},
+    returns=("tuple", ("cols", 1, "1", "L"), "idx"),
+    props=("C07",),
+    notes="Python wrapper of _count_mutations; the tree-sequence attributes it reads are typed by the statement of "
+          "C07 (coordinates L); any other attribute read is 'needs contract' (undecided), not a violation",
+)
+
 DimContract(
     "rescaling.mutational_area",
     params={"nodes_time": "T", "likelihoods": LIKS, "edges_parent": "idx", "edges_child": "idx"},
